@@ -175,15 +175,21 @@ def o192(ctx):
                         last_store(it, chain, "geom2") or fn, m)
             continue
         offset = off.args[1]
-        if not tm.has_call(offset, "reduce:max") and not tm.contains(offset, lambda n: n.op == "call" and "max" in str(n.args[0])):
+        # the order number of the particle the chain is hung behind IS the maximum of what is left of the existing chain: on the append path by the
+        # branch condition (chain_max_order == order_id), on the cut path because the tail holds exactly the rows with a greater order number
+        anchor_ = call("rowelem", mk("sel", sym("tr:geom2"), mk("eq", sym("tr:subtomo_id"), sym("m:subtomo_id"))), const(0))
+        if offset == anchor_:
+            ctx.count(2, {"path": label, "offset": "order number of the particle hung behind"})
+        elif not tm.has_call(offset, "reduce:max") and not tm.contains(offset, lambda n: n.op == "call" and "max" in str(n.args[0])):
             ctx.finding(q, last_store(it, chain, "geom2") or fn, f"{label}: the offset must be the maximum order number of the chain appended to",
                         last_store(it, chain, "geom2") or fn, m)
             continue
         # outermost selection of the max: the rows whose (current) class equals the class the appended chain receives
         sels = [n for n in tm.walk(offset) if n.op == "sel"]
         top = sels[0] if sels else None
-        ctx.count(1, {"path": label, "offset key": tm.show(top.args[1])[-120:] if top is not None else None})
-        ok = top is not None and len(top.args) == 2 and top.args[1].op == "eq" and top.args[1].args[1] == cls
+        if offset != anchor_:
+            ctx.count(1, {"path": label, "offset key": tm.show(top.args[1])[-120:] if top is not None else None})
+        ok = offset == anchor_ or (top is not None and len(top.args) == 2 and top.args[1].op == "eq" and top.args[1].args[1] == cls)
         if not ok:
             node = last_store(it, chain, "geom2") or fn
             key = tm.show(top.args[1].args[1])[:80] if top is not None and top.args[1].op == "eq" else None
@@ -910,4 +916,4 @@ def _obligations():
 
 
 def obligations():
-    return _obligations() + [constructors_obligation(['cryomotl.Motl', 'cryomotl.EmMotl']), labels_obligation("C19"), selectors_obligation("C19"), effects_obligation("C19"), plumbing_obligation("C19"), overrides_obligation("C19"), options_obligation("C19"), handlers_obligation("C19")]
+    return _obligations() + [constructors_obligation(['cryomotl.Motl', 'cryomotl.EmMotl']), labels_obligation("C19"), selectors_obligation("C19"), mutations_obligation("C19"), effects_obligation("C19"), plumbing_obligation("C19"), overrides_obligation("C19"), options_obligation("C19"), handlers_obligation("C19")]
